@@ -350,7 +350,7 @@ def parse_rvalue(s):
     s = s.strip()
     if s.startswith("no_retag "):
         s = s[len("no_retag "):].strip()
-    if s.startswith(("copy ", "move ", "const ")) and " as " not in _strip_brackets(s):
+    if s.startswith(("copy ", "move ", "const ")) and " as " not in _strip_brackets(s, angle=True):
         return ("use", parse_operand(s))
     m = re.match(r"^(\w+)\((.*)\)$", s)
     if m and m.group(1) in BINOPS:
@@ -414,12 +414,15 @@ def parse_rvalue(s):
     return ("unsupported_rvalue", s)
 
 
-def _strip_brackets(s):
+def _strip_brackets(s, angle=False):
+    """text outside brackets; with angle=True also outside <...> (a qualified path `<T as Trait>::x` is not a cast)"""
     out, depth = [], 0
+    op, cl = ("([{<", ")]}>") if angle else ("([{", ")]}")
+    s = s.replace("->", "  ") if angle else s
     for c in s:
-        if c in "([{":
+        if c in op:
             depth += 1
-        elif c in ")]}":
+        elif c in cl:
             depth -= 1
         elif depth == 0:
             out.append(c)
